@@ -1,13 +1,19 @@
 import FormulaicVerif.Engines.Json
 import FormulaicVerif.Model.Heap
+import FormulaicVerif.Model.HeapScope
+import FormulaicVerif.Model.HeapX
 import FormulaicVerif.Spec.Purity
-/-! Engine `c18`: runs a history of operations through the store model (`Model.Heap.trace`) and
-through the value semantics (`Spec.Purity.prun`).  The numeric parameters arrive as tables:
+import FormulaicVerif.Spec.PurityX
+/-! Engine `c18`: runs an extended history of operations (formula objects and their edits included)
+through the store model (`Model.HeapX.xtrace`, built on `Model.Heap.step`) and through the value
+semantics (`Spec.PurityX.xprun`, built on `Spec.Purity.pstep`); rank reduction is computed by
+`Model.HeapScope`.  The numeric parameters arrive as tables:
 fitted-state tokens per (call node, data set), failing factors, null rows, row counts and the
 per-row level codes of categorical factors (the encoder state is the sorted list of distinct codes
 on the kept rows). -/
 namespace FormulaicVerif.Engines.C18
 open Lean FormulaicVerif.Engines FormulaicVerif.Model.Heap FormulaicVerif.Spec.Purity
+open FormulaicVerif.Model.HeapX FormulaicVerif.Spec.PurityX
 
 abbrev F := String
 abbrev E := List Nat
@@ -37,14 +43,18 @@ def partJ (p : Part F E) : Json :=
     ("kept", jnats p.kept), ("terms", formulaJ p.terms), ("cols", jlist (p.cols.map colJ)),
     ("struct", jlist (p.struct.map entryJ))]
 
-/-- the parameters; `failing` is the table of part records for which `_enforce_structure` raises -/
-def paramsOf (j : Json) (failing : List String) : Params F E where
-  scopedOf t origin efr d :=
-    -- table: list of {term, origin, efr, d, factors: [[expr, reduced]...]}
-    match (jarr j "scoped").find? (fun e => termJ t == jval e "term" && formulaJ origin == jval e "origin"
-        && jbool e "efr" == efr && jnat e "d" == d) with
-    | some e => (jarr e "factors").map fun x => (asStr ((asArr x).getD 0 Json.null), asBool ((asArr x).getD 1 Json.null))
-    | none => []
+/-- kind and `spans_intercept` of an evaluated factor on a data set (table `kinds`: f ↦ d ↦ [kind, spans]) -/
+def kindOf (j : Json) (f : String) (d : Nat) : Model.HeapScope.FKind :=
+  match asArr (jval (sub j "kinds" f) (toString d)) with
+  | [Json.str "categorical", Json.bool s] => .categorical s
+  | _ => .numerical
+
+/-- the parameters; `failing` is the table of part records for which `_enforce_structure` raises.
+Rank reduction (`scopedOf`) is COMPUTED by the model (`Model/HeapScope.lean`, sets iterated in
+insertion order; every other admissible order gives the same: `Props.C18.scoped_terms_hash_seed_independent`) -/
+def paramsOf (j : Json) (failing : List String) : Params F E :=
+  Model.HeapScope.withScope (σ := .insertion) (kind := kindOf j) {
+  scopedOf := fun _ _ _ _ => []   -- replaced by `withScope`
   encodingFails part := failing.contains (partJ part).compress
   nodes f := (asArr (sub j "nodes" f)).map asStr
   fit n d := match jval (sub j "fit" n) (toString d) with
@@ -54,15 +64,16 @@ def paramsOf (j : Json) (failing : List String) : Params F E where
   nulls f d := (asArr (jval (sub j "nulls" f) (toString d))).map asNat
   nrows d := asNat (sub j "nrows" (toString d))
   encFit f d kept :=
-    -- levels given in the formula (`C(a, levels=L)`) do not come from the data
-    match sub j "fixedenc" f with
+    -- levels given in the formula (`C(a, levels=L)`) or declared by a categorical dtype of the data set
+    -- (in the declared order) do not come from the values of the kept rows
+    match jval (sub j "fixedenc" f) (toString d) with
     | .arr a => a.toList.map asNat
     | _ =>
     let rows := asArr (jval (sub j "levels" f) (toString d))
     kept.foldl (fun acc i => match rows[i]? with
       | some Json.null => acc
       | some x => insertSorted (asNat x) acc
-      | none => acc) []
+      | none => acc) [] }
 
 def termOf (j : Json) : Model.Heap.Term := (asArr j).map asStr
 def formulaOf (j : Json) : Formula := (asArr j).map termOf
@@ -72,24 +83,40 @@ def naOf : String → NAAction
   | _ => .drop
 def cfgOf (j : Json) : Cfg := ⟨jbool j "efr", naOf (jstr j "na")⟩
 
-def updOf (j : Json) : Upd :=
-  { formula := match j.getObjVal? "formula" with
-      | .ok (.arr a) => some (formulaOf (.arr a))
-      | _ => none,
+def optNat (j : Json) (k : String) : Option Nat :=
+  match j.getObjVal? k with
+  | .ok v => (v.getNat?).toOption
+  | _ => none
+
+def updOf (j : Json) : XUpd :=
+  { formula := optNat j "formula",
     efr := match j.getObjVal? "efr" with
       | .ok (.bool b) => some b
       | _ => none,
     na := match j.getObjVal? "na" with
       | .ok (.str s) => some (naOf s)
       | _ => none,
-    clearStruct := jbool j "clear" }
+    clearStruct := jbool j "clear",
+    resetState := jbool j "reset" }
 
-def opOf (j : Json) : Op :=
+def intOf (j : Json) (k : String) : Int := (j.getObjValAs? Int k).toOption.getD 0
+
+def editOfJ (j : Json) : Edit :=
+  match jstr j "k" with
+  | "insert" => .insert (intOf j "i") (termOf (jval j "t"))
+  | "append" => .append (termOf (jval j "t"))
+  | "set" => .set (intOf j "i") (termOf (jval j "t"))
+  | _ => .del (intOf j "i")
+
+def opOf (j : Json) : XOp :=
   match jstr j "op" with
-  | "new" => .newSpec (formulaOf (jval j "f")) (cfgOf j)
+  | "formula" => .formula (formulaOf (jval j "f"))
+  | "new" => .newSpec (jnat j "fid") (cfgOf j)
   | "update" => .update (jnat j "h") (updOf (jval j "u"))
-  | "subset" => .subset (jnat j "h") (formulaOf (jval j "terms"))
-  | "build" => .build ((jarr j "fs").map formulaOf) (cfgOf j) (jnat j "d")
+  | "subset" => .subset (jnat j "h") (formulaOf (jval j "picks"))
+  | "build" => .build ((jarr j "fids").map asNat) (cfgOf j) (jnat j "d")
+  | "edit" => .edit (jnat j "fid") (editOfJ (jval j "e"))
+  | "editof" => .editOf (jnat j "h") (editOfJ (jval j "e"))
   | _ => .call ((jarr j "hs").map asNat) (match jval j "u" with
       | .null => none
       | u => some (updOf u)) (jnat j "d")
@@ -105,8 +132,13 @@ def errStr : Err → String
   | .missingTerms => "ValueError"
   | .encoding => "FactorEncodingError"
 
-def outcomeJ : Outcome F E → Json
-  | .error e => Json.mkObj [("err", errStr e)]
+def xerrStr : XErr → String
+  | .base e => errStr e
+  | .indexError => "IndexError"
+  | .badFormula => "badFormula"
+
+def outcomeJ : XOutcome F E → Json
+  | .error e => Json.mkObj [("err", xerrStr e)]
   | .ok ps => Json.mkObj [("parts", jlist (ps.map partJ))]
 
 /-- canonical numbering of references by first occurrence -/
@@ -114,19 +146,23 @@ def classIds (refs : List Nat) : List Nat :=
   let firsts := refs.foldl (fun acc r => if acc.contains r then acc else acc ++ [r]) []
   refs.map fun r => (firsts.idxOf r)
 
-def specJ (w : World F E) (nodeKeys factorKeys : List String) (s : Spec E) (tc ec : Nat) : Json :=
+def specJ (w : World F E) (nodeKeys factorKeys : List String) (s : Spec E) (tc ec : Nat) (fc : Json) : Json :=
   Json.mkObj [("formula", formulaJ s.formula), ("efr", s.cfg.efr), ("na", naStr s.cfg.na),
     ("struct", match s.struct with
       | none => Json.null
       | some st => jlist (st.map fun e => termJ e.term)),
-    ("tc", tc), ("ec", ec),
+    ("tc", tc), ("ec", ec), ("fc", fc),
     ("t", Json.mkObj (nodeKeys.filterMap fun k => (w.tcells s.t k).map fun v => (k, Json.str v))),
     ("e", Json.mkObj (factorKeys.filterMap fun k => (w.ecells s.e k).map fun v => (k, jnats v)))]
 
-def worldJ (w : World F E) (nodeKeys factorKeys : List String) : Json :=
+def worldJ (xw : XWorld F E) (nodeKeys factorKeys : List String) : Json :=
+  let w := xw.base
   let tcs := classIds (w.specs.map (·.t))
   let ecs := classIds (w.specs.map (·.e))
-  jlist ((w.specs.zip (tcs.zip ecs)).map fun x => specJ w nodeKeys factorKeys x.1 x.2.1 x.2.2)
+  let fcs : List Json := (List.range w.specs.length).map fun i => match (xw.fref[i]? : Option Nat) with
+    | some r => Json.num (JsonNumber.fromNat r)
+    | none => Json.null
+  jlist ((w.specs.zip (tcs.zip (ecs.zip fcs))).map fun x => specJ w nodeKeys factorKeys x.1 x.2.1 x.2.2.1 x.2.2.2)
 
 def objKeys : Json → List String
   | .obj kvs => kvs.toList.map (·.1)
@@ -135,33 +171,41 @@ def objKeys : Json → List String
 /-- table construction (not part of the model): the implementation reported that operation `i`
 raised `FactorEncodingError` after completing `j` parts; the record of part `j` is added to the table
 of failing records.  The answer is then computed by the plain model with the final table. -/
-def growTable (j : Json) (mode : Mode) (tape : List (Nat × Nat)) :
-    Nat → World F E → List String → List Op → List String
+def growTable (j : Json) (tape : List (Nat × Nat)) :
+    Nat → XWorld F E → List String → List XOp → List String
   | _, _, tbl, [] => tbl
   | i, w, tbl, op :: ops =>
-    let r := step (paramsOf j tbl) mode w op
+    let r := xstep (paramsOf j tbl) w op
     match tape.find? (fun x => x.1 == i) with
-    | none => growTable j mode tape (i + 1) r.1 tbl ops
+    | none => growTable j tape (i + 1) r.1 tbl ops
     | some x =>
       let tbl' := match r.2 with
         | .ok parts => match parts[x.2]? with
           | some p => if tbl.contains (partJ p).compress then tbl else tbl ++ [(partJ p).compress]
           | none => tbl
         | .error _ => tbl
-      growTable j mode tape (i + 1) (step (paramsOf j tbl') mode w op).1 tbl' ops
+      growTable j tape (i + 1) (xstep (paramsOf j tbl') w op).1 tbl' ops
 
 def handle (j : Json) : Json :=
   let ops := (jarr j "ops").map opOf
-  let mode := if jstr j "mode" == "share" then Mode.share else Mode.copy
   let tape := (jarr j "encfail").map fun x => (asNat ((asArr x).getD 0 Json.null), asNat ((asArr x).getD 1 Json.null))
-  let tbl := growTable j mode tape 0 World.init [] ops
+  let tbl := growTable j tape 0 XWorld.init [] ops
   let P := paramsOf j tbl
   let factorKeys := objKeys (jval j "nodes")
   let nodeKeys := (factorKeys.flatMap P.nodes).eraseDups
-  let tr := trace P mode World.init ops
+  let tr := xtrace P XWorld.init ops
+  -- the model's scoped terms for every (formula, ensure_full_rank, data set) the harness asks about
+  let scopedAns := (jarr j "scopedq").map fun q =>
+    match Model.HeapScope.scopedTerms .insertion (fun f => kindOf j f (jnat q "d")) (formulaOf (jval q "origin")) (jbool q "efr") with
+    | .error _ => Json.null
+    | .ok r => jlist (r.map fun p => jlist (p.2.map fun st => Json.mkObj [
+        ("factors", jlist (st.factors.map fun sf => jlist [Json.str sf.expr, Json.bool sf.reduced])),
+        ("scale", Json.str (toString st.scale))]))
   Json.mkObj [
-    ("heap", jlist (tr.map fun x => Json.mkObj [("out", outcomeJ x.2), ("specs", worldJ x.1 nodeKeys factorKeys)])),
-    ("pure", jlist ((prun P [] ops).map outcomeJ)),
+    ("scoped", jlist scopedAns),
+    ("heap", jlist (tr.map fun x => Json.mkObj [("out", outcomeJ x.2), ("specs", worldJ x.1 nodeKeys factorKeys),
+      ("forms", jlist (x.1.forms.map formulaJ))])),
+    ("pure", jlist ((xprun P XEnv.init ops).map outcomeJ)),
     ("failing", jstrs tbl)]
 
 end FormulaicVerif.Engines.C18
